@@ -557,7 +557,7 @@ def conclude(prop, tier, t0, jobs, tlc_results, reports, traces=()):
             slot = f"{mm['kind']}/{mm['e'].get('a', '?')}"
             if rep.get("per_kind", {}).get(slot, 0) > 0 and rep.get("per_kind_hostfree", {}).get(slot, 0) == 0 \
                     and vlib.has_nonzero_host(mm.get("h")) | vlib.has_nonzero_host(mm.get("e")) \
-                    and "C18-nonbinding" not in own:
+                    and not any(o.endswith("-nonbinding") for o in own):   # what no property fixes, C18 does not either
                 own = own | {"C18"}
             if prop in own:
                 mine.append(mm)
